@@ -319,6 +319,9 @@ class InlinePass(ir.passes.InPlacePass):
                 inlined_count += 1
             else:
                 for attr in node.attributes.values():
+                    if attr.is_ref():
+                        # A reference attribute holds no graph to inline into
+                        continue
                     if attr.type == ir.AttributeType.GRAPH:
                         _, sub_inlined = self._inline_calls_in(attr.as_graph())
                         inlined_count += sub_inlined
